@@ -261,10 +261,10 @@ func (s *kState) AdvanceVotingRound() {
 	// Always set the NilVotedRound here,
 	// because we have to assume nobody else has sufficient information to advance.
 	//
-	// It doesn't matter if there was an existing value for NilVotedRound.
-	// If there was one somehow, it would have been out of date.
+	// If there was an existing value for NilVotedRound that was not sent yet,
+	// the gossip view manager keeps it queued ahead of this one.
 	vClone := s.Voting.Clone()
-	s.GossipViewManager.NilVotedRound = &vClone
+	s.GossipViewManager.SetNilVotedRound(&vClone)
 
 	s.incrementVotingRound()
 
